@@ -411,9 +411,7 @@ func (w *treeWorld) hostileBatch() (chs []*rawCh, heads, path []string, label st
 			label = "envelope:duplicated"
 		case 3:
 			if len(chs) > 1 {
-				cp := *chs[0]
-				cp.Id = chs[1].Id
-				chs[0] = &cp
+				chs[0] = &rawCh{RawChange: chs[0].RawChange, Id: chs[1].Id}
 			}
 			label = "envelope:id-swap"
 		default:
